@@ -8,7 +8,10 @@ from harness import circgen as cg, logicsim_corr as lc, simcheck as sk, wavechec
 THEOREMS = ['C06_gpu_threads_cover', 'C06_lane_independent', 'C06_release_order_irrelevant', 'C06_strip_forks_irrelevant',
             'C06_cycles_strip_irrelevant',
             'C06_c_reuse_irrelevant', 'C06_c_reuse_same_interface', 'C06_end_to_end_reuse', 'C06_options_irrelevant_spec',
-            'C06_options_irrelevant']
+            'C06_options_irrelevant',
+            'C06_buf_zero_delay_identity', 'C06_buf_zero_delay_overflow', 'C06_buf_zero_delay_nonmonotone_refuted', 'C06_wexec_alias_id',
+            'C06_wave_strip_forks_irrelevant', 'C06_wave_strip_forks_polfree', 'C06_wave_strip_nonmonotone_refuted',
+            'C06_dataset_selection', 'C06_dataset_selection_lanes']
 COLS = [3, 4, 5, 6, 7, 10]
 
 
@@ -84,6 +87,75 @@ def nonmonotone_stem(w, c):
     return False
 
 
+def strip_line_mismatch(base, w, c):
+    """first (line, lane, stripped waveform, un-stripped waveform) that differ, or None"""
+    for line in c.lines:
+        for lane in range(base.sims):
+            a, b = wo.waveform(base, line.index, lane), wo.waveform(w, line.index, lane)
+            if a != b:
+                return line.index, lane, b, a
+    return None
+
+
+def wave_line_level(ck, rng, n_strip, n_sel):
+    """Line-level models of C06's timing clauses against the implementation's waveform memory:
+    wexec_alias (Model/WaveStripModel.v) vs WaveSim(strip_forks=True); wexec_sel vs WaveSim with a dataset table in modes 0 / 1."""
+    import json, os
+    cases, metas, kinds = [], [], []
+    corpus = os.path.join(os.path.dirname(os.path.dirname(os.path.dirname(os.path.abspath(__file__)))), 'harness', 'corpus', 'C06_strip_nonmonotone.json')
+    queue = [wk.from_description(json.load(open(corpus)))] if os.path.exists(corpus) else []
+    made = 0
+    while made < n_strip:
+        k = queue.pop(0) if queue else wk.gen_wave_case(rng, capmode=rng.choice(['4', '8', '16', 'vec']), sims=rng.choice([1, 2, 3]), reuse=False,
+                                                         style=rng.choice(['polfree', 'full', 'spread', 'uniform']))
+        if not has_input_forks(k.c) or not k.c.forks:
+            continue
+        if rng.random() < 0.6:
+            k.delays = zero_fork_inputs(k.c, k.delays)
+        w = wk.run_case(k, strip=True, reuse=False)
+        lane = rng.randrange(k.sims)
+        cases.append(wc.coq_strip_case(k.c, k.caps, k.delays, w, lane, k.s0, k.s1, k.s2, k.extra))
+        metas.append(dict(wk.describe(k), kind='wave-line-strip', lane=lane)); kinds.append('strip')
+        ck.count(1, 'line-level-strip-cases')
+        made += 1
+    made = 0
+    while made < n_sel:
+        k = wk.gen_wave_case(rng, capmode=rng.choice(['8', '16']), sims=rng.choice([2, 3]), reuse=False)
+        nds = rng.choice([2, 3])
+        dsets = np.stack([wc.gen_delays(rng, len(k.c.lines), 'full')[0] for _ in range(nds)])
+        for mode in (0, 1):
+            g = rng.randrange(nds)
+            pick = [rng.randrange(nds) for _ in range(k.sims)]
+            pick[rng.randrange(k.sims)] = nds - 1
+            ctl = np.array([pick, [mode] * k.sims], dtype=np.int32)
+            w = wc.run_wavesim(k.c, dsets, k.sims, k.caps, False, False, k.s0, k.s1, k.s2, k.extra, k.tcap, simctl=ctl, seed=g)
+            # mode 0: one lane (all lanes use dataset g); mode 1: every lane (each has its own pick)
+            for lane in ([rng.randrange(k.sims)] if mode == 0 else range(k.sims)):
+                cases.append(wc.coq_sel_case(k.c, k.caps, dsets, mode, g, pick[lane], w, lane, k.s0, k.s1, k.s2, k.extra))
+                metas.append(dict(wk.describe(k), kind='wave-line-dataset', lane=lane, mode=mode, seed=g, simctl0=pick, datasets=dsets.tolist()))
+                kinds.append('sel')
+                ck.count(1, f'line-level-dataset-mode{mode}-dataset{g if mode == 0 else pick[lane]}-of-{nds}')
+        made += 1
+    chunks = [cases[i:i + 10] for i in range(0, len(cases), 10)]
+    outs = ck.coq_eval_many('sl', [wc.strip_cases_file(ch) for ch in chunks], jobs=12)
+    bad, allok = {}, True
+    for ci, (ok, out) in enumerate(outs):
+        codes = cg.parse_nat_list(out) if ok else None
+        if codes is None:
+            allok = False
+            ck.obligation('line-level evaluation (wexec_alias / wexec_sel) ran', False, 'correspondence', out[-800:])
+            continue
+        for code in codes:
+            bad[ci * 10 + code // 32] = code % 32
+    for kind, what in (('strip', 'wexec_alias through the stems (delay row of the operand index named in the op) = every tracked region of '
+                                 'WaveSim(strip_forks=True) memory up to its terminator; op list / stems = build_ops c true / build_stems'),
+                       ('sel', 'wexec_sel (dataset selected per op evaluation from simctl_int / seed, modes 0 and 1, 2..3 datasets) = every '
+                               'tracked region of WaveSim memory up to its terminator')):
+        hit = [i for i in bad if kinds[i] == kind]
+        ck.obligation(f'line-level {what}: {kinds.count(kind)} lanes', allok and not hit, 'correspondence', f'failing cases {hit[:10]}')
+    return [dict(metas[i], line_level_failed=bad[i]) for i in sorted(bad)]
+
+
 def wave_options(rng, k=None):
     if k is None:
         k = wk.gen_wave_case(rng, capmode=rng.choice(['8', '16']), sims=rng.choice([2, 3, 5]), reuse=False)
@@ -104,6 +176,14 @@ def wave_options(rng, k=None):
                 desc['class'] = 'strip-nonmonotone-stem'
             return desc, (f'{"WaveSimCuda" if cuda else "WaveSim"} c_reuse={reuse} strip_forks={strip}: s[{COLS[col]}] position {p} lane {l} = '
                           f'{v[col, p, l]}, reference (CPU, options off) {ref[col, p, l]}')
+        if strip and not reuse and not cuda:
+            # what C06_wave_strip_forks_irrelevant states, on the implementation: EVERY line (not only the ports) holds in the
+            # stripped run -- at its stem's region, c_locs[line] is aliased -- the waveform of the un-stripped run
+            bad = strip_line_mismatch(base, w, k.c)
+            if bad is not None:
+                if nonmonotone_stem(base, k.c):
+                    desc['class'] = 'strip-nonmonotone-stem'
+                return desc, f'WaveSim strip_forks=True: line {bad[0]} lane {bad[1]} holds {bad[2]}, un-stripped run {bad[3]}'
         if not reuse and not strip and not np.array_equal(np.asarray(w.c), np.asarray(base.c)):
             return desc, 'WaveSimCuda waveform memory differs from WaveSim'
     # a second propagation without re-assigning the inputs (e.g. to evaluate another delay dataset) must still be
@@ -282,6 +362,11 @@ def run(ck):
         ck.nontrivial(('x', i))
         if what:
             fails.append((desc, what))
+    try:
+        line_mism = wave_line_level(ck, rng, ck.scale(16, 300), ck.scale(5, 80))
+    except Exception:
+        line_mism = []
+        ck.obligation('line-level correspondence (wexec_alias / wexec_sel) ran', False, 'correspondence', traceback.format_exc()[-800:])
     # the launcher model that C06_gpu_threads_cover is about = the real MockCuda launcher
     lfails = launch_corr.run(ck, rng, ck.scale(24, 200))
     keyof = lambda d: 'options:' + d.get('kind', '?') + (':' + d['class'] if 'class' in d else '')
@@ -289,14 +374,23 @@ def run(ck):
     ck.obligation('option / lane / code-path invariance holds on every generated configuration set (listed known findings excepted)',
                   not unknown, 'correspondence', unknown[0][1] if unknown else '')
     ck.rule('per circuit: LogicSim m=2/4/8 x {c_reuse} x {strip_forks} x more lanes x lane permutation; WaveSim/WaveSimCuda x {c_reuse} x '
-            '{strip_forks with zero delay on fork inputs} x more lanes x lane permutation x c_prop(sims=j) x delay-dataset modes 0 and 1; WaveSim vs WaveSimCuda on overflowing waveforms (capacity 4 / per-line) incl. memory and overflow flags')
-    ck.trust('no Coq theorem is specific to this property yet: it is decided here by differential execution of the implementation '
-             'against itself over all option pairs; the models of SimOps/LogicSim/WaveSim (C01-C05) are option-parametric and tied by '
-             'correspondence for every option setting')
+            '{strip_forks with zero delay on fork inputs; every line compared, not only ports} x more lanes x lane permutation x c_prop(sims=j) x delay-dataset modes 0 and 1; WaveSim vs WaveSimCuda on overflowing waveforms (capacity 4 / per-line) incl. memory and overflow flags; '
+            'line-level models wexec_alias / wexec_sel evaluated against the waveform memory of WaveSim(strip_forks=True) / WaveSim with 2..3 datasets')
+    ck.trust('c_reuse invariance and CPU/GPU equality are decided by differential execution of the implementation against itself over all '
+             'option pairs; the models of SimOps/LogicSim/WaveSim (C01-C05) are option-parametric and tied by correspondence for every option setting',
+             'timing simulation: the strip_forks and dataset theorems speak about the line-level semantics wexec / wexec_alias / wexec_sel '
+             '(Model/WaveOps.v, Model/WaveStripModel.v), which is tied to wave_sim._wave_eval / SimOps by evaluation on the memory the '
+             'implementation produced (strip_forks=True and dataset tables, this check; options off, C03/C04/C13); mode 2 of the dataset '
+             'selection (seeded pseudo-random pick per op) is a parameter of the model and not covered by a theorem')
     for desc, what in fails[:5]:
         ck.fail(keyof(desc), what, {'component': 'SimOps / LogicSim / WaveSim / WaveSimCuda options', 'input': desc, 'actual': what})
     for key, what, rp in lfails[:3]:
         ck.fail(key, what, dict(rp, actual=what))
+    if not unknown:
+        for m in line_mism[:3]:
+            ck.fail('line-level-disagrees', f'line-level model ({m["kind"]}) and implementation disagree',
+                    {'component': 'Model/WaveStripModel.v vs wave_sim._wave_eval / sim.SimOps', 'input': m,
+                     'broken': ['correspondence line level (wexec_alias / wexec_sel)']}, found_input=False)
 
 
 def replay(rp):
